@@ -138,7 +138,7 @@ class SubPoly(object):
       return res
 
   def __neg__(self):
-      return self.__class__([-x for x in self.ival])
+      return self.__class__([-x for x in self.ival],self.size)
 
 
 # getitem operator defines b[i], b[i:j] and b[list] which returns the requested
